@@ -22,7 +22,7 @@ import (
 // through git on copy B.
 
 func init() {
-	fw.Register(&fw.Check{ID: "C28", Level: "exploration", Run: runC28, QuickBudget: 90, ThoroughBudget: 1200})
+	fw.Register(&fw.Check{ID: "C28", Level: "exploration", Run: runC28, QuickBudget: 150, ThoroughBudget: 1200})
 }
 
 // (HEAD, index, worktree) kinds per path, alphabet of C27 (t = type swap).
